@@ -103,6 +103,8 @@ pub const CUBE_PATTERNS: &[&str] = &[
     "/\u{6587}ads^", "/\u{e9}/bar", "bar\u{e9}^", "||ads.net/\u{6587}ads",
     // percent-escapes next to rule tokens
     "/foo%2Fbar", "%2Fbar", "ads%20foo",
+    // a token of 70 characters (first and rarest token of the rule: its bucket key)
+    "/a0123456789b0123456789c0123456789d0123456789e0123456789f0123456789g012345/ads",
     // hostname anchor with an empty host text (the parser keeps an empty hostname)
     "||*/foo/", "||/foo/bar", "||^foo^",
     // full regex and empty
@@ -168,6 +170,7 @@ pub const PATHS: &[&str] = &[
     "/foo*/bar",
     "/foo%2Fbar",
     "/ads%20foo/bar",
+    "/a0123456789b0123456789c0123456789d0123456789e0123456789f0123456789g012345/ads/foo",
 ];
 
 /// Paths with non-ASCII characters next to rule tokens: letters (token characters) and punctuation
